@@ -49,6 +49,12 @@ func vMStep(s vMState, o vMOp) (vMState, bool) {
 		return s, s.bound[f] && s.open[f]
 	case 7: // walk in place by one name: the fid stays bound (to the walked-to entry)
 		return s, s.bound[f]
+	case 8: // attach onto the fid
+		if s.bound[f] {
+			return s, false
+		}
+		s.bound[f], s.open[f] = true, false
+		return s, true
 	}
 	return s, false
 }
@@ -60,6 +66,8 @@ func vMDo(sess *session, o vMOp) bool {
 		err = sess.Clunk(vBG, o.fid)
 	case 5:
 		err = sess.Remove(vBG, o.fid)
+	case 8:
+		_, err = sess.Attach(vBG, o.fid, NOFID, "u", "a")
 	case 7:
 		var qs []Qid
 		qs, err = sess.Walk(vBG, o.fid, o.fid, "a")
@@ -385,4 +393,68 @@ func VerifC14_InPlaceWalk() {
 		return true
 	})
 	vReach("c14.inplace")
+}
+
+
+// ---- four concurrent operations on one fid number -----------------------------
+// A stat (which holds the fid while the file system yields), two clunks (or a
+// clunk and a remove) and an attach that binds the same fid number again.
+// Delay-bounded; every operation returns, the outcome is that of some
+// sequential order, nothing stays locked.
+func VerifC14_Quad() {
+	fs := &vStubFS{noFail: true, yield: true, fullWalk: true}
+	sess := SFileSys(fs).(*session)
+	e1 := fs.newEnt(true)
+	sess.refs.Store(Fid(1), &SFid{Ent: e1})
+	var st0 vMState
+	st0.bound[1] = true
+	fs.failRelease = map[int]bool{}
+	fs.failClone = map[int]bool{}
+	ops := [4]vMOp{
+		{kind: []int{3, 7}[ndChoice("x.kind", 2)], fid: 1},
+		{kind: 0, fid: 1},
+		{kind: []int{0, 5}[ndChoice("c2.kind", 2)], fid: 1},
+		{kind: 8, fid: 1},
+	}
+	done := make(chan bool, 4)
+	var res [4]bool
+	for i := 0; i < 4; i++ {
+		go func(i int) { res[i] = vMDo(sess, ops[i]); done <- true }(i)
+	}
+	for i := 0; i < 4; i++ {
+		<-done // an operation that never returns is reported as a deadlock
+	}
+	final := vMObserve(sess)
+	okAny := false
+	var perm func(k int, used [4]bool, s vMState, ok bool)
+	perm = func(k int, used [4]bool, s vMState, ok bool) {
+		if k == 4 {
+			if ok && s == final {
+				okAny = true
+			}
+			return
+		}
+		for i := 0; i < 4; i++ {
+			if used[i] {
+				continue
+			}
+			s2, r := vMStep(s, ops[i])
+			u := used
+			u[i] = true
+			perm(k+1, u, s2, ok && r == res[i])
+		}
+	}
+	perm(0, [4]bool{}, st0, true)
+	vAssert(okAny, "C14: the results are those of some sequential order of the operations")
+	vAssert(fs.viol == "", "C14: the file system never sees overlapping calls on one fid's entry or file: "+fs.viol)
+	sess.refs.Range(func(k, v interface{}) bool {
+		sf := v.(*SFid)
+		okl := sf.TryLock()
+		vAssert(okl, "C14: no fid is left locked after the operations returned")
+		if okl {
+			sf.Unlock()
+		}
+		return true
+	})
+	vReach("c14.quad")
 }
